@@ -51,6 +51,25 @@ def lib_inspect_lines(mo):
     return [ln for ln in out.getvalue().splitlines()]
 
 
+def write_doc(rng, name, doc):
+    """Write a document as UTF-8, or (sometimes) as declared ISO-8859-1 / UTF-16 bytes:
+    the library parses bytes, so all of these are valid MOS files."""
+    r = rng.random()
+    if r < 0.7:
+        data = doc.encode('utf-8')
+    elif r < 0.85:
+        data = ('<?xml version="1.0" encoding="ISO-8859-1"?>\n' + doc).encode('latin-1', 'xmlcharrefreplace')
+    else:
+        data = ('<?xml version="1.0" encoding="UTF-16"?>\n' + doc).encode('utf-16')
+    with open(name, 'wb') as f:
+        f.write(data)
+
+
+def read_text_exact(path):
+    with open(path, encoding='utf-8', newline='') as f:
+        return f.read()
+
+
 def make_files(s, rng, tmpdir, n, for_merge=False):
     """Returns list of (path, kind) with kind in valid/completed/nonxml/unknown/missing/dir."""
     pool = gen.text_pool('hostile')
@@ -68,7 +87,7 @@ def make_files(s, rng, tmpdir, n, for_merge=False):
                                   pretty=rng.random() < 0.5)
             else:
                 doc = gen.rand_message(rng, state, kind, 10 + k, ids, pool=pool, shape_weights=(0.9, 0.05, 0.05, 0))
-            open(name, 'w', encoding='utf-8').write(doc)
+            write_doc(rng, name, doc)
             files.append((name, 'valid'))
         elif r < 0.68:
             ro = s.load(ro_txt)
@@ -106,7 +125,7 @@ def check_detect_inspect(s, rng, tmpdir, idx, inspect):
     pos = 0
     pattern = ''.join({'valid': 'v', 'completed': 'c', 'nonxml': 'x', 'unknown': 'u', 'missing': 'm', 'dir': 'd'}[k]
                       for _, k in files)
-    wit = {'type': 'cli', 'argv': argv, 'files': [(f, k, (open(f, encoding='utf-8').read() if os.path.isfile(f) else None))
+    wit = {'type': 'cli', 'argv': argv, 'files': [(f, k, (open(f, 'rb').read().decode('latin-1') if os.path.isfile(f) else None))
                                                   for f, k in files]}
     problems = []
     MosFile = s.mt.MosFile
@@ -158,7 +177,7 @@ def check_detect_inspect(s, rng, tmpdir, idx, inspect):
 
 
 def merge_files(s, rng, tmpdir):
-    pool = gen.text_pool('hostile')
+    pool = gen.text_pool('cr' if rng.random() < 0.3 else 'hostile')
     ro_txt = gen.rand_ro(rng, n_stories=rng.randint(1, 4), pool=pool, message_id=1, pretty=rng.random() < 0.5)
     state = Abs(ro_txt)
     ids = gen.Ids('m')
@@ -183,7 +202,7 @@ def merge_files(s, rng, tmpdir):
     rng.shuffle(order)
     for j in order:
         p = os.path.join(tmpdir, 'm%02d.mos.xml' % j)
-        open(p, 'w', encoding='utf-8').write(docs[j])
+        write_doc(rng, p, docs[j])
         paths.append(p)
     r = rng.random()
     if r < 0.08:
@@ -237,7 +256,7 @@ def check_merge(s, rng, tmpdir, idx):
     s.note_sig(('merge', flavour, inc, non_strict, outfile, type(want_err).__name__ if want_err else 'ok', rc))
     s.hist['cli:merge'] += 1
     s.hist['cli:merge:%s' % ('error' if want_err else 'ok')] += 1
-    wit = {'type': 'cli', 'argv': argv, 'files': [(p, 'merge', open(p, encoding='utf-8').read() if os.path.isfile(p) else None)
+    wit = {'type': 'cli', 'argv': argv, 'files': [(p, 'merge', open(p, 'rb').read().decode('latin-1') if os.path.isfile(p) else None)
                                                   for p in paths]}
     det = {'flavour': flavour, 'options': {'incomplete': inc, 'non_strict': non_strict, 'outfile': outfile},
            'library': type(want_err).__name__ if want_err else 'ok', 'rc': rc, 'stderr': err[:200]}
@@ -245,7 +264,7 @@ def check_merge(s, rng, tmpdir, idx):
         if rc not in (None, 0):
             s.custom_violation('merge-nonzero-status-on-success', det, wit, msg_kind='merge', status='ok')
         if outfile:
-            got = open(outpath, encoding='utf-8').read() if os.path.exists(outpath) else None
+            got = read_text_exact(outpath) if os.path.exists(outpath) else None
             if got != want_text:
                 s.custom_violation('merge-outfile-differs-from-library-result', det, wit, msg_kind='merge', status='-o')
         else:
@@ -337,14 +356,16 @@ def subprocess_samples(s, tmpdir, n):
         EV.drain()
         try:
             p = subprocess.run([sys.executable, '-B', '-c', code] + argv, env=env, capture_output=True,
-                               text=True, timeout=60, cwd=tmpdir)
+                               timeout=60, cwd=tmpdir)
+            p.stdout = p.stdout.decode('utf-8', 'replace')
+            p.stderr = p.stderr.decode('utf-8', 'replace')
         except subprocess.TimeoutExpired:
             s.inconclusive.append('console-script subprocess timed out')
             continue
         s.evaluations += 1
         s.note_sig(('subprocess', flavour, inc, ns, p.returncode))
         s.hist['cli:subprocess'] += 1
-        wit = {'type': 'cli', 'argv': argv, 'files': [(q, 'merge', open(q, encoding='utf-8').read() if os.path.isfile(q) else None)
+        wit = {'type': 'cli', 'argv': argv, 'files': [(q, 'merge', open(q, 'rb').read().decode('latin-1') if os.path.isfile(q) else None)
                                                       for q in paths]}
         det = {'flavour': flavour, 'library': type(want_err).__name__ if want_err else 'ok', 'rc': p.returncode,
                'stderr': p.stderr[-200:]}
@@ -399,7 +420,7 @@ def replay(s, data):
     for p, k, content in w['files']:
         if content is not None:
             os.makedirs(os.path.dirname(p), exist_ok=True)
-            open(p, 'w', encoding='utf-8').write(content)
+            open(p, 'wb').write(content.encode('latin-1'))
         elif k == 'dir':
             os.makedirs(p, exist_ok=True)
     rc, out, err = run_cli(w['argv'])
